@@ -51,6 +51,14 @@ LENGTHS = list(range(1, 81)) + [96, 100, 127, 128, 129, 255, 256, 257, 1000, 131
 BIG_LENGTHS = [2048, 4095, 4096, 4097, 8192, 12288, 16384, 32768, 65535, 65536, 65537, 65560, 70000, 131072]
 
 
+def both_role(rng, p):
+    """15 % of the random decoder executions use an OF_ENCODER_AND_DECODER instance; half of those first build
+    some repair symbols of the block on it (a sender that also checks its own block)"""
+    if rng.random() >= 0.15:
+        return {}
+    return {"both": True, "builds_before": rng.choice([0, 0, 1, 2, p.r]), "build_slot": rng.choice(["buf", "buf", "null"])}
+
+
 def pick_len(rng, n):
     if n <= 48 and rng.random() < 0.08:
         return rng.choice(BIG_LENGTHS)
@@ -88,7 +96,7 @@ def random_ldpc(rng, count, kmax, cbs=(None,), apis=("recv", "setavail"), payloa
         fin = rng.choice(finish_choices)
         execs.append(gen.decode_exec(p, sub, api=api, finish=fin, cb=rng.choice(cbs),
                                      probe=rng.choice(probe_choices) if n <= 40 else "end",
-                                     both=rng.random() < 0.15, refinish=fin and rng.random() < 0.3))
+                                     refinish=fin and rng.random() < 0.3, **both_role(rng, p)))
     return execs
 
 
@@ -150,6 +158,10 @@ def dense_ldpc(rng, count, cbs=(None,), finish_choices=(False,), probe="each"):
         k = rng.randint(3, 12)
         r = rng.randint(5, 10)
         n1 = rng.choice([r, r - 1, max(3, r - 2)])
+        if rng.random() < 0.2:      # dozens of equations per symbol: tiny k with many repairs, or N1 in the tens
+            k = rng.choice([1, 2, 2, 3, rng.randint(4, 10)])
+            r = rng.randint(17, 40)
+            n1 = rng.choice([3, 5, r, r - 1, rng.randint(3, r)]) if k <= 3 else rng.randint(17, r)
         p = P(3, k, r, N1=n1, seed=rng.randint(1, 2 ** 31 - 2), length=gen.need_len(3, k, 0) + rng.choice([0, 1]))
         # most repairs first, then sources in random order with a few missing: peeling cascades
         reps = [e for e in range(k, p.n) if rng.random() < 0.9]
@@ -198,7 +210,7 @@ def random_rs(rng, count, nmax, cbs=(None,), apis=("recv", "setavail"), payloads
         fin = rng.choice([True, True, False])
         execs.append(gen.decode_exec(p, sub, api=api, finish=fin, cb=rng.choice(cbs),
                                      probe="each" if n <= 12 else "end",
-                                     both=rng.random() < 0.15, refinish=fin and rng.random() < 0.3))
+                                     refinish=fin and rng.random() < 0.3, **both_role(rng, p)))
     return execs
 
 
